@@ -455,7 +455,7 @@ class C06(Check):
     time_cap = {'quick': 90.0, 'thorough': 900.0}
 
     def cases(self, tier: str, seed: int) -> Iterable[dict[str, Any]]:
-        n = 4000 if tier == "quick" else 60000
+        n = 3000 if tier == "quick" else 60000
         rng = random.Random(seed * 7177 + 6)
         for i in range(n):
             r = rng.random()
